@@ -25,37 +25,46 @@ from core import Ctx, ToolFailure, Violation, ints
 PROP = "C11"
 MANIFEST = {
     "text": "Lean 4 theorems for every mask, ACS mask, protected region, requested count and every candidate stream / "
-            "choice list: Gaussian, uniform and half (4 directions) splits are partitions (union = mask, intersection "
-            "empty, resp. = ACS with keep_acs), target inside the free cells, protected cells stay in the input, target "
-            "size = min(requested, #free-1)+1 (Gaussian) / floor count (uniform), split k-spaces = mask restrictions and "
-            "sum to the masked k-space, seeded output independent of ambient RNG state, kernel termination iff "
-            "requested+1 <= #free for fair streams and therefore always after the cap (pre-repair divergence kept as "
-            "witness). Tied to the code by translated loop guard / acceptance test / slice bounds / count, cap and seed "
-            "expressions (bridge lemmas) and by exact differential replay on the reconstructed libc stream and recorded "
-            "rng.choice draws.",
+            "choice list: Gaussian, uniform and half (4 directions, on exact or float32 coordinates) splits are partitions "
+            "(union = mask, intersection empty, resp. = ACS with keep_acs), target inside the free cells, protected cells stay "
+            "in the input, target size = min(requested, #free-1)+1 (Gaussian) / floor count (uniform), the float32 count "
+            "int(ceil(fl(S)*fl(rho))) equals the exact ceiling unless S*p/q is an integer (then +1 at most; floor -1 at most), "
+            "split k-spaces = mask restrictions summing to the masked k-space, seeded output independent of ambient RNG "
+            "state, kernel result invariant under repeated candidates, termination iff requested+1 <= #free on every prefix "
+            "containing each free cell once (hence always after the cap; pre-repair divergence kept as witness); SSL branch: "
+            "key plumbing of build_mri_transforms' tail against the keys the SSL engines read, and the k-space loss sees the "
+            "prediction only on held-out target cells. Tied to the code by translated loop guard / acceptance test / slice "
+            "bounds / count, cap, seed expressions / diagonal predicates / key tables (bridge lemmas) and by exact "
+            "differential replay on the reconstructed libc stream, the recorded rng.choice draws, torch's float32 product and "
+            "the real engines' training step.",
     "note": "Trusted: Lean kernel (+propext, Classical.choice, Quot.sound), the AST/.pyx translator, libc rand and numpy "
             "RandomState as deterministic functions of their seed, torch boolean/slice semantics as encoded by zipWith / "
-            "pySlice (validated by correspondence). float32 products S*ratio enter the model as the integer they produce "
-            "(checked to be within one of the exact-rational count); diagonal half splits are modelled on exact "
-            "fractions, cells where float32 linspace disagrees are compared by the oracle only. Probabilistic claims "
-            "(the libc stream is fair) are assumptions, not theorems.",
-    "technique": "Lean 4 proof (list induction, omega, counting) + AST/.pyx translation bridge + differential "
-                 "correspondence with reconstructed RNG streams under a subprocess watchdog",
+            "pySlice, torch.linspace values (carried exactly as dyadic integers), the harness's replay of the libc stream "
+            "(C helper cross-checked against a ctypes replay). Termination is a theorem only for streams that contain every "
+            "free cell; that libc's rand()-driven Box-Muller stream does so is a probabilistic fact (each free cell has "
+            "positive probability per draw, so a finite hitting time with probability 1, but no deterministic bound): the "
+            "check measures the candidates the real stream needs on the tightest requests and flags more than 1e7 as "
+            "`gaussian-split-slow`. float32 count theorem needs S*p < 2^22 and normal-range binary32 (no overflow/subnormals).",
+    "technique": "Lean 4 proof (list induction, omega, counting, Mathlib field arithmetic for the binary32 error bound) + "
+                 "AST/.pyx translation bridge + differential correspondence with reconstructed RNG streams under a "
+                 "subprocess watchdog",
 }
 TRUSTED = [
     "Lean 4.33 kernel; axioms ⊆ {propext, Classical.choice, Quot.sound}",
     "harness/translate + recipes/c11.py (Python AST / .pyx front-end -> Lean) for loop guard, acceptance test, slice bounds, "
-    "count / cap / seed expressions, mask algebra",
-    "libc rand()/srand() reproduced through ctypes; Box–Muller with math.sqrt/log/cos/sin equals the C kernel bit for bit",
+    "count / cap / seed expressions, diagonal predicates, mask algebra, SSL tail and engine key tables",
+    "libc rand()/srand() reproduced through ctypes and a small C helper (cross-checked against each other on every run); "
+    "Box–Muller with sqrt/log/cos/sin equals the C kernel bit for bit",
     "numpy RandomState.choice(replace=False, p) returns distinct indices of non-zero probability (checked on every draw)",
-    "torch boolean ops / slice assignment / apply_mask as encoded by zipWith / pySlice / applyMaskK (validated by correspondence)",
+    "torch boolean ops / slice assignment / apply_mask / default_collate as encoded by zipWith / pySlice / applyMaskK "
+    "(validated by correspondence); torch.linspace float32 values taken from torch and carried exactly",
 ]
 ASSUMPTIONS = [
-    "the requested count enters the model as the integer the float32 product yields; the driver rejects it unless it is "
-    "within +1 (ceil) / ±1 (floor) of the exact-rational count",
-    "diagonal half splits: torch.linspace float32 coordinates agree with the exact fractions except possibly on the "
-    "anti-diagonal; such cases are excluded from the differential comparison and checked by the oracle only",
-    "termination is proved for fair candidate streams; that libc's stream is fair is not proved",
+    "float32 sums xv ± yv keep the sign of the exact sum of the float32 coordinates (round-to-nearest, no underflow)",
+    "the float32 product is modelled for normal-range binary32 and S < 2^24; the ratio p/q reaches float32 through one "
+    "rounding (double rounding via float64 cannot differ for q < 2^20)",
+    "termination is proved for candidate streams that contain every free cell; that libc's stream does is probabilistic "
+    "(measured, not proved)",
     "k-space entries are small integers (exact in float32)",
 ]
 RULE = ("masks: line / 2-D random / sparse / nearly empty / full, 6..40 rows and columns, odd/even, non-square; ratios "
@@ -65,7 +74,7 @@ RULE = ("masks: line / 2-D random / sparse / nearly empty / full, 6..40 rows and
         "case description")
 
 # findings of this check on the current tree that the lead has not yet ruled on (still reported as VIOLATION)
-PENDING_FINDINGS: list[str] = ["ssl-split-mask-rank-3d"]
+PENDING_FINDINGS: list[str] = []
 
 HARNESS = pathlib.Path(__file__).resolve().parent.parent
 WATCHDOG_S = 20.0
@@ -294,6 +303,8 @@ def _worker_main():  # pragma: no cover - runs in the subprocess
         # collate + one training step of the engine with a recording k-space loss
         try:
             batch = default_collate(outs)
+            res["collated_mask_shape"] = list(batch["input_sampling_mask"].shape)
+            res["collated_k_shape"] = list(batch["input_kspace"].shape)
             batch["_pred"] = torch.stack([torch.tensor(p, dtype=torch.float32).reshape(kshape) for p in case["pred"]])
             eng = toy_engine(case["engine"])
             eng.model.train()
@@ -821,6 +832,8 @@ def _gen_engine_case(rng, kind: str, dims: int, level: str = "engine") -> dict:
     """SSL branch of build_mri_transforms -> default_collate -> one training step of an SSL engine"""
     H, W = rng.randint(6, 10), rng.randint(6, 11)
     B, C = rng.choice([1, 2, 2, 3]), rng.choice([1, 2, 3])
+    if rng.random() < 0.3:
+        C = B                     # batch = coils: where a misaligned mask would broadcast silently
     Sl = rng.choice([2, 3]) if dims == 3 else 1
     mtype = rng.choice(["line", "2d", "2d", "sparse", "full"])
     keep = rng.random() < 0.35
@@ -897,6 +910,7 @@ def _check_engine(case, res):
     if not res.get("engine_ok"):
         yield (tag or "ssl-engine-step-raises", f"training step on the collated batch raises {res.get('engine_err')}")
         return
+    tag = None
     for b in range(B):
         out, ref = _engine_spec(case, res, b)
         if res["loss_ref"][b] != ref:
@@ -1298,7 +1312,15 @@ def correspondence(ctx: Ctx):
                 continue
             _RESULTS.append((case, res))
             _histograms(ctx, case, res)
-            if case["level"] == "engine" and res.get("ok") and res.get("engine_ok") and case["dims"] == 2:
+            if case["level"] == "engine" and res.get("ok") and res.get("collated_k_shape"):
+                # shapes through default_collate: split-mask shape, broadcast against the collated k-space, batch axes meet
+                ok_b = int(bool(res.get("engine_ok")))
+                aligned = int(len(res["collated_mask_shape"]) == len(res["collated_k_shape"]))
+                yield {"line": "mshape " + _grp([], res["orig_mask_shape"], res["collated_k_shape"]),
+                       "impl": (lambda a="ok " + _grp(res["mask_shape"][0], [ok_b, aligned]): a), "nontrivial": case["B"] > 1,
+                       "bucket": f"collate/{case['dims']}d/" + ("B=C" if case["B"] == case["C"] else "B!=C"),
+                       "key": json.dumps(["mshape", case["dims"], case["B"], case["C"], res["orig_mask_shape"]])}
+            if case["level"] == "engine" and res.get("ok") and res.get("engine_ok"):
                 # the training step of the real engine against the model's `sslOutput`, sample by sample
                 N = case["nrow"] * case["ncol"]
                 for b in range(min(case["B"], len(res["loss_out"]))):
